@@ -13,7 +13,8 @@ COQ_TARGETS = ["Properties/C06", "Pins/C06"]
 THEOREMS = [("PdfV.Properties.C06", n) for n in [
     "C06_rc4_involution", "C06_rc4_bad_key", "C06_rc4_is_rc4", "C06_pkcs7", "C06_tables", "C06_from_password_rc4_refines", "C06_open_user_rc4",
     "C06_open_owner_rc4", "C06_wrong_pw_rc4", "C06_accepted_iff_rc4", "C06_kdf_refines", "C06_from_password_56_refines", "C06_open_user_56", "C06_open_owner_56", "C06_wrong_pw_56", "C06_accepted_iff_56",
-    "C06_no_panic", "C06_decrypt_no_panic", "C06_plaintext", "C06_plaintext_string", "C06_plaintext_decode", "C06_exempt", "C06_full"]]
+    "C06_no_panic", "C06_decrypt_no_panic", "C06_plaintext", "C06_plaintext_string", "C06_plaintext_decode", "C06_open_user_rc4_reads", "C06_open_user_56_key", "C06_open_owner_56_key", "C06_opened_56_reads",
+    "C06_exempt", "C06_full"]]
 ANCHORS = ["crypt.rs"]
 MODES = ["rc4", "crypt_open", "crypt_dec", "crypt_doc"]
 TRUSTED_BASE = ["coqc 8.16.1 kernel (vm_compute for table lemmas and witnesses; no native_compute)",
